@@ -73,6 +73,8 @@ pub struct MItem {
     pub after_gone: bool,
     pub expiry: i64,
     pub submitted_in_run: u32,
+    /// submission depth: 0 = from the top level, n+1 = from an item of depth n
+    pub depth: u32,
 }
 
 /// Entries of the abstract main queue
@@ -106,6 +108,9 @@ pub struct MActor {
     pub slab_children: Vec<ActorId>,
     pub term_requests: u32,
     pub created_in_run: u32,
+    /// a Prep method returned Some(value) but also requested stop/fail: the value is never
+    /// installed; only its exactly-once drop is asserted
+    pub orphan_value: bool,
 }
 
 #[derive(Clone, Debug)]
@@ -152,6 +157,8 @@ pub struct Monitor {
     /// flush obligations: held calls of an actor that just became Ready
     flush: Vec<(ActorId, VecDeque<ItemId>)>,
     pterm: Option<PendingTerm>,
+    due_after_idle: bool,
+    batch_left: usize,
     lazy_phase: u32,
     main_since_lazy: bool,
     /// Stakker drop in progress / done
@@ -200,6 +207,8 @@ impl Monitor {
             stack: Vec::with_capacity(16),
             flush: Vec::with_capacity(4),
             pterm: None,
+            due_after_idle: false,
+            batch_left: 0,
             lazy_phase: 0,
             main_since_lazy: true,
             dropping: false,
@@ -239,6 +248,7 @@ impl Monitor {
             after_gone: false,
             expiry: 0,
             submitted_in_run: self.run_idx,
+            depth: 0,
         });
         id
     }
@@ -258,6 +268,7 @@ impl Monitor {
             slab_children: Vec::new(),
             term_requests: 0,
             created_in_run: self.run_idx,
+            orphan_value: false,
         });
         if let Some(p) = slab_parent {
             self.actors[p as usize].slab_children.push(id);
@@ -286,8 +297,13 @@ impl Monitor {
         it.gen = gen;
         it.after_gone = after_gone;
         it.submitted_in_run = run_idx;
-        if self.stack.len() as u32 > self.stat_reentrant_depth {
-            self.stat_reentrant_depth = self.stack.len() as u32;
+        let depth = match (self.stack.last(), self.drop_stack.last()) {
+            (_, Some(i)) | (Some(i), None) => self.items[*i as usize].depth + 1,
+            _ => 0,
+        };
+        self.items[id as usize].depth = depth;
+        if depth > self.stat_reentrant_depth {
+            self.stat_reentrant_depth = depth;
         }
     }
 
@@ -396,28 +412,35 @@ impl Monitor {
         self.prev_now = self.now;
         if now > self.now {
             self.now = now;
-            // due timers go behind everything already queued
-            let now = self.now;
-            let items = &self.items;
-            let mut due: Vec<ItemId> = Vec::new();
-            self.timers.retain(|t| {
-                if items[*t as usize].expiry <= now {
-                    due.push(*t);
-                    false
-                } else {
-                    true
-                }
-            });
+            // due timers go behind everything already queued; if an idle item runs first, its
+            // submissions (including timers it adds) precede the evaluation
             if idle && !self.idle.is_empty() {
                 self.stat_idle_in_advancing_run += 1;
-            }
-            if !due.is_empty() {
-                self.main.push_back(MQ::Timers(due));
+                self.due_after_idle = true;
+            } else {
+                self.push_due();
             }
         } else if !self.main.is_empty() || !self.lazy.is_empty() {
             self.stat_nonadvancing_run_with_work += 1;
         }
         self.main_since_lazy = true;
+    }
+
+    fn push_due(&mut self) {
+        let now = self.now;
+        let items = &self.items;
+        let mut due: Vec<ItemId> = Vec::new();
+        self.timers.retain(|t| {
+            if items[*t as usize].expiry <= now {
+                due.push(*t);
+                false
+            } else {
+                true
+            }
+        });
+        if !due.is_empty() {
+            self.main.push_back(MQ::Timers(due));
+        }
     }
 
     // ------------------------------------------------------------------
@@ -618,6 +641,11 @@ impl Monitor {
         }
         self.check_no_obligations(&what)?;
         self.run_events += 1;
+        if it.q != Q::Idle {
+            if std::mem::take(&mut self.due_after_idle) {
+                self.push_due();
+            }
+        }
         if !self.in_run && it.kind != Kind::Closure {
             // direct synchronous invocations (query) are reported through query_start instead
         }
@@ -701,6 +729,7 @@ impl Monitor {
                     self.advance_main(&what, Some(it.kind), &|f| *f == MQ::Item(id))?;
                     self.main.pop_front();
                     self.main_since_lazy = true;
+                    self.batch_left = 0;
                 }
                 Q::Timer => {
                     self.advance_main(&what, None, &|f| matches!(f, MQ::Timers(t) if t.contains(&id)))
@@ -718,7 +747,6 @@ impl Monitor {
                 }
                 Q::Lazy => {
                     // C06: lazy after main
-                    while self.consume_silent_front() {}
                     if self.lazy.front() != Some(&id) {
                         return Err(v(
                             &["C06"],
@@ -730,10 +758,15 @@ impl Monitor {
                             ),
                         ));
                     }
-                    if self.main_since_lazy {
+                    if self.batch_left == 0 {
+                        // a new lazy batch begins: everything submitted before it has been
+                        // processed (calls to Prep actors silently held, dead terminations skipped)
                         self.lazy_phase += 1;
-                        self.main_since_lazy = false;
+                        self.batch_left = self.lazy.len();
+                        while self.consume_silent_front() {}
                     }
+                    self.batch_left -= 1;
+                    self.main_since_lazy = false;
                     let phase = self.lazy_phase;
                     for e in self.main.iter() {
                         let ok = match e {
@@ -837,6 +870,11 @@ impl Monitor {
             }
         }
         self.items[id as usize].st = IState::Ran;
+        if self.items[id as usize].q == Q::Idle {
+            if std::mem::take(&mut self.due_after_idle) {
+                self.push_due();
+            }
+        }
         match self.items[id as usize].kind {
             Kind::Closure => {}
             Kind::Call(a) => {
@@ -850,6 +888,9 @@ impl Monitor {
                 let act = &mut self.actors[a as usize];
                 act.in_method -= 1;
                 if let Some(c) = act.die.take() {
+                    if returned_some {
+                        act.orphan_value = true;
+                    }
                     self.begin_term(a, c);
                 } else if returned_some {
                     act.st = AState::Ready;
@@ -889,6 +930,34 @@ impl Monitor {
         self.check_no_obligations("direct kill")?;
         self.actors[a as usize].term_requests += 1;
         self.begin_term(a, Cause::Killed(tag));
+        Ok(())
+    }
+
+    /// The direct kill call returned: its effects must be complete
+    pub fn direct_kill_done(&mut self, _a: ActorId) -> R {
+        self.check_no_obligations("direct kill returned")
+    }
+
+    /// Nothing may be left half-done at this point (after a synchronous call returned)
+    pub fn settled(&mut self, what: &str) -> R {
+        self.check_no_obligations(what)
+    }
+
+    /// query!: a synchronous Ready-style call from outside the queues
+    pub fn query_start(&mut self, id: ItemId, a: ActorId) -> R {
+        self.check_no_obligations("query")?;
+        let st = self.actors[a as usize].st;
+        if st != AState::Ready {
+            return Err(v(
+                &["C02"],
+                "query-ran-not-ready",
+                format!("query! closure ran on a{} which is {:?}", a, st),
+            ));
+        }
+        self.actors[a as usize].in_method += 1;
+        self.actors[a as usize].die = None;
+        self.items[id as usize].st = IState::Running;
+        self.stack.push(id);
         Ok(())
     }
 
@@ -972,6 +1041,10 @@ impl Monitor {
     /// Drop of the actor's own value observed
     pub fn value_dropped(&mut self, a: ActorId) -> R {
         let what = format!("value of actor a{} dropped", a);
+        if self.actors[a as usize].orphan_value {
+            self.actors[a as usize].orphan_value = false;
+            return Ok(());
+        }
         if self.actors[a as usize].value_dropped {
             return Err(v(&["C03", "C16"], "value-dropped-twice", format!("{} twice", what)));
         }
@@ -1126,11 +1199,29 @@ impl Monitor {
         if self.deleting_timer == Some(id) {
             return Ok(());
         }
-        if it.st == IState::Held {
+        let mut st = it.st;
+        if st == IState::Pending && it.q == Q::Main {
+            if let Kind::Call(a) = it.kind {
+                if self.actors[a as usize].st == AState::Prep {
+                    // it reached the front earlier and is being held (the model holds lazily)
+                    self.advance_main(&what, Some(it.kind), &|f| *f == MQ::Item(id))?;
+                    self.consume_silent_front();
+                    st = self.items[id as usize].st;
+                    self.items[id as usize].st = IState::Dropped;
+                }
+            }
+        }
+        if st == IState::Held {
             let a = match it.kind {
                 Kind::Call(a) => a,
                 _ => unreachable!(),
             };
+            let flushing_dead = matches!(self.flush.last(), Some((fa, q)) if *fa == a && q.front() == Some(&id))
+                && self.actors[a as usize].st == AState::Zombie;
+            if self.pterm.is_none() && !flushing_dead {
+                // the termination that discards it has not been observed yet: find it
+                self.explain_term(a, &what)?;
+            }
             // (1) the Prep actor holding it is terminating
             if let Some(pt) = &mut self.pterm {
                 if pt.aid == a {
@@ -1285,6 +1376,9 @@ impl Monitor {
     /// Run returned
     pub fn run_end(&mut self, returned: bool) -> R {
         self.check_no_obligations("run() returned")?;
+        if std::mem::take(&mut self.due_after_idle) {
+            self.push_due();
+        }
         if let Some((a, q)) = self.flush.last() {
             if !q.is_empty() {
                 return Err(v(
